@@ -93,3 +93,35 @@ Example C14_sanitize_examples :
   sanitize "H2O" = "H2O"%string /\ sanitize "1H2-16O" = "H2O"%string /\ sanitize "12C-16O2" = "CO2"%string /\
   sanitize "Na" = "Na"%string /\ sanitize "TiO" = "TiO"%string /\ sanitize "H2-He" = "H2He"%string.
 Proof. exact sanitize_examples. Qed.
+
+(* ---- the CIA cache ---- *)
+(* a pair that has been served is served again as the same object and nothing is loaded a second time *)
+Theorem C14_cia_served_again_is_same_object : forall (s s1 : cia_state) (p : nat) (o : cia_obj),
+  cia_step s (CGet p) = (s1, CServed o) -> cia_step s1 (CGet p) = (s1, CServed o).
+Proof. exact cia_served_again_is_same_object. Qed.
+Print Assumptions C14_cia_served_again_is_same_object.
+
+Theorem C14_cia_not_found_changes_nothing : forall (s s1 : cia_state) (p : nat),
+  cia_step s (CGet p) = (s1, CNotFound) -> s1 = s.
+Proof. exact cia_not_found_changes_nothing. Qed.
+Print Assumptions C14_cia_not_found_changes_nothing.
+
+(* whatever happens next (other pairs requested, the path changed, objects added), a cached pair keeps its object *)
+Theorem C14_cia_served_forever : forall (s : cia_state) (p : nat) (ob : cia_obj) (o : cia_op),
+  cia_find (ci_dict s) p = Some ob -> cia_find (ci_dict (fst (cia_step s o))) p = Some ob.
+Proof. exact cia_served_forever. Qed.
+Print Assumptions C14_cia_served_forever.
+
+(* the documented priority: a pickle file of the pair is preferred over a HITRAN file *)
+Theorem C14_cia_db_priority : forall (s s1 : cia_state) (p : nat) (ob : cia_obj) (f : cia_file),
+  cia_find (ci_dict s) p = None -> In f (ci_files s) -> cf_pair f = p -> cf_hitran f = false ->
+  cia_step s (CGet p) = (s1, CServed ob) ->
+  exists g, In g (ci_files s) /\ cf_pair g = p /\ cf_hitran g = false /\ co_file ob = cf_id g.
+Proof. exact cia_db_priority. Qed.
+Print Assumptions C14_cia_db_priority.
+
+Theorem C14_cia_added_is_served : forall (s : cia_state) (p file : nat), cia_find (ci_dict s) p = None ->
+  exists o, cia_step (fst (cia_step s (CAdd p file))) (CGet p) = (fst (cia_step s (CAdd p file)), CServed o)
+            /\ co_file o = file /\ co_pair o = p.
+Proof. exact cia_added_is_served. Qed.
+Print Assumptions C14_cia_added_is_served.
